@@ -180,7 +180,17 @@ impl Oracle for RfcOracle {
                     Probe::Server(s) => {
                         for c in s.clients.iter() {
                             if let Some(h) = &c.hc {
-                                xs.push((h.verif_id, h.send_rate, h.max_send_rate));
+                                // the ceiling towards a client is what the two configurations
+                                // say (the server's max_send_rate, the client's max_receive_rate),
+                                // not what the connection was handed
+                                let mut ceiling = h.max_send_rate;
+                                if let (Some(cep), EndpointKind::Server { cfg: sc, .. }) = (cx.ep_of(&c.address), &cx.plan.endpoints[*ep].kind) {
+                                    if let EndpointKind::Client { cfg, .. } = &cx.plan.endpoints[cep].kind {
+                                        ceiling = sc.max_send_rate.min(cfg.max_receive_rate).min(u32::MAX as u64) as u32;
+                                        self.ceilings.insert((*ep, h.verif_id), ceiling);
+                                    }
+                                }
+                                xs.push((h.verif_id, h.send_rate, ceiling));
                             }
                         }
                     }
